@@ -52,3 +52,13 @@ Definition load_all (H : list byte -> list byte) st dfix (fuel : nat) (d : db) (
 
 Definition lookup_bytes (t : option tnode) (key : list byte) : option (list byte) :=
   match t with None => None | Some n => lookup n (nibbles_of_bytes key) end.
+
+(* A branch whose value was deleted can keep MustBeHashed = true (deleteFromBranch sets StorageValue
+   to nil and leaves the flag).  [norm] clears such stale flags: it is the tree that the encoding,
+   the database and every reader see (ProofsNorm.v). *)
+Fixpoint norm (t : tnode) : tnode :=
+  match t with
+  | TN pk sv mbh cs =>
+    TN pk sv (mbh && match sv with Some _ => true | None => false end)
+       (map (fun oc => match oc with None => None | Some c => Some (norm c) end) cs)
+  end.
